@@ -25,20 +25,21 @@ def getDom? (j : Json) : Option Dom := do
     | [k, n] => do some ((← getStr? k), (← getNat? n))
     | _ => none
 
-partial def getEx? (j : Json) : Option (Ex Float) := do
+partial def getExG {K : Type} (num : Json → Option K) (z : K) (j : Json) : Option (Ex K) := do
   let t ← fStr? j "t"
-  let sub (k : String) : Option (Ex Float) := (field? j k).bind getEx?
+  let sub (k : String) : Option (Ex K) := (field? j k).bind (getExG num z)
+  let nums (k : String) : Option (List K) := (field? j k).bind (listOf? num)
   match t with
   | "var" => some (.var (← fStr? j "k") (← fNat? j "n"))
   | "add" => some (.add (← sub "a") (← sub "b"))
   | "sub" => some (.sub (← sub "a") (← sub "b"))
   | "mul" => some (.mul (← sub "a") (← sub "b"))
-  | "scale" => some (.scale (← (field? j "c").bind getFloat?) (← sub "a"))
-  | "addc" => some (.addc (← fFloatList? j "c") (← fBool? j "neg") (← sub "a"))
-  | "mulc" => some (.mulc (← fFloatList? j "d") (← sub "a"))
-  | "ptw" => some (.ptw (← Fn.ofString (← fStr? j "f")) (← fFloatList? j "p") (← sub "a"))
+  | "scale" => some (.scale (← (field? j "c").bind num) (← sub "a"))
+  | "addc" => some (.addc (← nums "c") (← fBool? j "neg") (← sub "a"))
+  | "mulc" => some (.mulc (← nums "d") (← sub "a"))
+  | "ptw" => some (.ptw (← Fn.ofString (← fStr? j "f")) (← nums "p") (← sub "a"))
   | "lin" => do
-      let rows ← (field? j "rows").bind (listOf? floatList?)
+      let rows ← (field? j "rows").bind (listOf? (listOf? num))
       some (.lin (← fNat? j "m") (← fNat? j "n") rows (← sub "a"))
   | "sum" => some (.sum (← sub "a"))
   | "vdot" => some (.vdot (← sub "a") (← sub "b"))
@@ -46,19 +47,26 @@ partial def getEx? (j : Json) : Option (Ex Float) := do
   | "putKey" => some (.putKey (← fStr? j "k") (← sub "a"))
   | "chain" => some (.chain (← sub "f") (← sub "g"))
   | "sqnorm" => some (.sqnorm (← sub "a"))
-  | "quad" => some (.quad (← fFloatList? j "d") (← sub "a"))
-  | "gauss" => some (.gauss (← fFloatList? j "data") (← fFloatList? j "icov") (← sub "a"))
+  | "quad" => some (.quad (← nums "d") (← sub "a"))
+  | "gauss" => some (.gauss (← nums "data") (← nums "icov") (← sub "a"))
+  | "bil" => do
+      let T ← (field? j "T").bind (listOf? (listOf? (listOf? num)))
+      some (.bil (← fNat? j "m") (← fNat? j "na") (← fNat? j "nb") T (← sub "a") (← sub "b"))
+  | "varcov" => some (.varcov (← fNat? j "n") (← sub "a") (← sub "b"))
   | "const" => do
       let parts ← (field? j "parts").bind getArr?
       let kv ← parts.mapM (fun p => do
         match (← getArr? p) with
-        | [k, v] => some ((← getStr? k), (← floatList? v))
+        | [k, v] => some ((← getStr? k), (← (listOf? num) v))
         | _ => none)
       some (.const (← fBool? j "energy") (kv.map (fun p => (p.1, p.2.length)))
         (fun k i => match kv.find? (·.1 == k) with
-          | some (_, l) => l.getD i 0.0
-          | none => 0.0))
+          | some (_, l) => l.getD i z
+          | none => z))
   | _ => none
+
+
+def getEx? (j : Json) : Option (Ex Float) := getExG getFloat? 0.0 j
 
 /-- same keys with the same sizes (as sets) -/
 def domEq (a b : Dom) : Bool :=
@@ -69,7 +77,7 @@ def domCompat (a b : Dom) : Bool :=
   a.all (fun kn => b.all (fun kn' => kn'.1 != kn.1 || kn'.2 == kn.2))
 
 /-- well-formedness against the input domain: what the real constructors accept -/
-def check : Ex Float → Dom → Bool
+def check {K : Type} : Ex K → Dom → Bool
   | .var k n, d => d.any (fun kn => kn.1 == k && kn.2 == n)
   | .add a b, d => check a d && check b d && domCompat a.dom b.dom
   | .sub a b, d => check a d && check b d && domCompat a.dom b.dom
@@ -88,6 +96,23 @@ def check : Ex Float → Dom → Bool
   | .quad c a, d => check a d && domEq a.dom [("", c.length)]
   | .gauss dt ic a, d => check a d && domEq a.dom [("", dt.length)] && ic.length == dt.length
   | .const _ _ _, _ => true
+  | .bil m na nb T a b, d => check a d && check b d && domEq a.dom [("", na)] && domEq b.dom [("", nb)]
+      && T.length == m && T.all (fun r => r.length == na && r.all (·.length == nb))
+  | .varcov n a b, d => check a d && check b d && domEq a.dom [("", n)] && domEq b.dom [("", n)]
+
+def flatG {K : Type} (d : Dom) (v : MVal K) : List K :=
+  d.flatMap (fun kn => (List.range kn.2).map (v kn.1))
+
+def unitsG {K : Type} (z o : K) (d : Dom) : List (MVal K) :=
+  d.flatMap (fun kn => (List.range kn.2).map (fun i => fun k j => if k = kn.1 ∧ j = i then o else z))
+
+def envOfG {K : Type} (num : Json → Option K) (z : K) (d : Dom) (x : Json) : Option (MVal K) := do
+  let vs ← d.mapM (fun kn => do
+    let l ← (field? x kn.1).bind (listOf? num)
+    if l.length == kn.2 then some (kn.1, l) else none)
+  some (fun k i => match vs.find? (·.1 == k) with
+    | some (_, l) => l.getD i z
+    | none => z)
 
 def flat (d : Dom) (v : MVal Float) : List Float :=
   d.flatMap (fun kn => (List.range kn.2).map (v kn.1))
